@@ -61,6 +61,26 @@ def absz(t):
     return z3.If(t >= 0, t, -t)
 
 
+def _node_height(net, name):
+    """height of a pit node from the *input tables*: junction height, or the linear interpolation between the end
+    junctions for the k-th internal node of a pipe (independent of what the pit holds)"""
+    kind, ix, k = name.split(":")
+    if kind == "junction":
+        return _t(net.junction.at[int(ix), "height_m"])
+    if kind == "pipe_nodes":
+        ix, k = int(ix), int(k)
+        S = int(net.pipe.at[ix, "sections"])
+        hf = _t(net.junction.at[int(net.pipe.at[ix, "from_junction"]), "height_m"])
+        ht = _t(net.junction.at[int(net.pipe.at[ix, "to_junction"]), "height_m"])
+        return hf + (ht - hf) * z3.RealVal(k + 1) / z3.RealVal(S)
+    return None
+
+
+def _pamb_of(h):
+    from svx.sym import Sym as _S
+    return _t(stubs.sym_p_correction_height_air(_S(z3.simplify(h))))
+
+
 def obligations(st, names, job):
     net = st.net
     obs = []
@@ -80,9 +100,18 @@ def obligations(st, names, job):
         bp = st.bpit
         row = _t(hyd["m|" + b][0])
         fn_, tn_ = st.fn[b], st.tn[b]
-        pf = _t(st.P[fn_]) + _t(st.PAMB[fn_])
-        pt = _t(st.P[tn_]) + _t(st.PAMB[tn_])
-        dh = _t(st.HGT[fn_]) - _t(st.HGT[tn_])
+        hf_, ht_ = _node_height(net, fn_), _node_height(net, tn_)
+        if hf_ is None or ht_ is None:
+            hf_, ht_ = _t(st.HGT[fn_]), _t(st.HGT[tn_])
+            pf = _t(st.P[fn_]) + _t(st.PAMB[fn_])
+            pt = _t(st.P[tn_]) + _t(st.PAMB[tn_])
+        else:
+            # heights and barometric pressures of the section ends from the input tables (not from the pit)
+            obs.append({"label": "%s: node heights of the pit = junction heights / linear interpolation along the pipe" % b,
+                        "fp": "C02/heights", "goal": z3.And(_t(st.HGT[fn_]) == hf_, _t(st.HGT[tn_]) == ht_)})
+            pf = _t(st.P[fn_]) + _pamb_of(hf_)
+            pt = _t(st.P[tn_]) + _pamb_of(ht_)
+        dh = hf_ - ht_
         m = _t(st.m[b])
         tfrom, tout = _t(st.T[fn_]), _t(st.Tout[b])
         # geometry from the input tables
